@@ -1060,12 +1060,22 @@ class ValueList(Value):
     def asMap(self):
         result = ValueMap()
         for entry in self.value:
+            if not entry.isList() or len(entry.value) != 2:
+                raise CklRuntimeError(
+                    ValueString("ERROR"),
+                    "Cannot convert to map, list of pairs required",
+                )
             result.addItem(entry.value[0], entry.value[1])
         return result
 
     def asObject(self):
         result = ValueObject()
         for entry in self.value:
+            if not entry.isList() or len(entry.value) != 2:
+                raise CklRuntimeError(
+                    ValueString("ERROR"),
+                    "Cannot convert to object, list of pairs required",
+                )
             result.addItem(entry.value[0].asString().value, entry.value[1])
         return result
 
